@@ -102,7 +102,7 @@ def _http_free(data, prefix_i):
 
 # ---------------------------------------------------------------- FTP control
 _REPLY_LINES = ['220 ok', '220-multi', ' 220 indented', '22', '2x0 bad', '', '\x00\xff', '999999999999 big', '227 (1,2,3,4,5,6)', '227 (1,2,3,4,5)',
-                '227 (999,999,999,999,999,999)', '200 ok\r200 again', '200-a\r\r226 b', '220 ' + 'y' * 70000, '213 ', '213', '213 1024 bytes', '213 -5', '213 12', '213 x', '213 ' + '9' * 400, '331 pw', '230 in', '-', '٢٢٠ arabic', '150 go', '226 done', '2200']
+                '227 (999,999,999,999,999,999)', '200 ok\r200 again', '200-a\r\r226 b', '220 ' + 'y' * 70000, '213 ', '213', '213 1024 bytes', '213 -5', '227 Entering Passive Mode (127,0,0,1,260,21)', '227 (1,2,3,4,5,300)', '213 12', '213 x', '213 ' + '9' * 400, '331 pw', '230 in', '-', '٢٢٠ arabic', '150 go', '226 done', '2200']
 
 
 def _ftp_control(l1, l2, l3, n, op, eof):
@@ -124,7 +124,10 @@ def _ftp_control(l1, l2, l3, n, op, eof):
             elif op == 'login':
                 run(cm.login('u', 'p'))
             elif op == 'pasv':
-                run(cm.passive_mode())
+                addr = run(cm.passive_mode())
+                # what comes back is handed to the socket layer, which raises OverflowError (not a per-URL error) for a port > 65535
+                if not (isinstance(addr[1], int) and 0 <= addr[1] <= 65535):
+                    return False
             elif op == 'size':
                 run(cm.size('/f'))
             elif op == 'restart':
